@@ -23,16 +23,16 @@ func (m *ReferenceCriteriaManager) Spec_ForParams(params *interface{}) Reference
 	if len(m.factories) == 0 {
 		panic(fmt.Errorf("no ReferenceCriterionFactory has been declared"))
 	}
-	referenceType := m.fetchFactoryTypeFromParams(params)
-	factory := m.factory(&referenceType)
+	referenceType := m.Spec_fetchFactoryTypeFromParams(params)
+	factory := m.Spec_factory(&referenceType)
 	provider := factory.NewProvider()
-	utils.DecodeToStruct(*params, provider)
+	utils.Spec_DecodeToStruct(*params, provider)
 	return provider
 }
 
 func (m *ReferenceCriteriaManager) Spec_fetchFactoryTypeFromParams(params *interface{}) referenceParamsType {
 	referenceType := referenceParamsType{}
-	utils.DecodeToStruct(*params, &referenceType)
+	utils.Spec_DecodeToStruct(*params, &referenceType)
 	if len(referenceType.ReferenceCriterionType) == 0 {
 		referenceType.ReferenceCriterionType = m.factories[0].Identifier()
 	}
@@ -45,7 +45,7 @@ func (m *ReferenceCriteriaManager) Spec_factory(param *referenceParamsType) Refe
 			return f
 		}
 	}
-	names := m.extractFactoriesNames()
+	names := m.Spec_extractFactoriesNames()
 	panic(fmt.Errorf("no reference criterion factory found for '%s' in %v", param.ReferenceCriterionType, names))
 }
 
